@@ -145,6 +145,38 @@ def _reaches(succ, src, dst):
     return False
 
 
+def fn_ipdom(fn):
+    """immediate post-dominators of the CFG (virtual exit = blocks without successors)"""
+    if getattr(fn, '_ipdom', None) is not None: return fn._ipdom
+    succ = fn_succ(fn)
+    nodes = list(fn.blocks)
+    EXIT = '__exit__'
+    rs = {n: (succ[n] if succ[n] else [EXIT]) for n in nodes}
+    pdom = {n: set(nodes) | {EXIT} for n in nodes}
+    pdom[EXIT] = {EXIT}
+    changed = True
+    while changed:
+        changed = False
+        for n in nodes:
+            new = None
+            for m in rs[n]:
+                new = set(pdom[m]) if new is None else new & pdom[m]
+            new = (new or set()) | {n}
+            if new != pdom[n]:
+                pdom[n] = new; changed = True
+    ip = {}
+    for n in nodes:
+        cands = pdom[n] - {n}
+        best = None
+        for c in cands:
+            # the immediate one is post-dominated by all the other strict post-dominators
+            if all(o == c or o in pdom.get(c, {EXIT}) for o in cands):
+                best = c; break
+        ip[n] = None if best in (None, EXIT) else best
+    fn._ipdom = ip
+    return ip
+
+
 def assigned_locals(fn, blocks):
     out = set()
     for bb in blocks:
@@ -361,6 +393,7 @@ class Engine:
         self.executed = set()
         self.max_steps = max_steps
         self.havoc_log = []
+        self.merge = False       # state merging at if-diamonds (branches that rejoin at the immediate post-dominator)
         self.axioms = []         # global facts (e.g. monotonicity instances of an uninterpreted function) used when pruning
         self.cuts = set()        # (function name, block) cut points: reaching one ends the segment with a Cut value
         import z3
@@ -639,6 +672,10 @@ class Engine:
                 return I(T.wrap(T.mul(a.t, P2(b.t[1])), k, sg), ty)
             if op == 'BitAnd':
                 for x, y in ((a, b), (b, a)):
+                    if T.is_c(y.t) and y.t[1] > 0 and (y.t[1] & (y.t[1] - 1)) == 0:
+                        bit = T.bit_of(x.t, y.t[1].bit_length() - 1)
+                        if bit is not None: return I(T.ite(bit, C(y.t[1]), C(0)), ty)
+                for x, y in ((a, b), (b, a)):
                     if T.is_c(y.t) and (y.t[1] & (y.t[1] + 1)) == 0:
                         return I(T.mod(x.t, C(y.t[1] + 1)), ty)
                 raise NotImplementedError('BitAnd general')
@@ -770,6 +807,10 @@ class Engine:
                         if v.t == FALSE: bb = ft; jumped = True; break
                         p1 = self.fork(path, v.t)
                         p0 = self.fork(path, T.not_(v.t))
+                        if p1 is not None and p0 is not None and self.merge:
+                            mg = self.try_merge(fr, bb, v.t, tt, ft, p1, p0, path)
+                            if mg is not None:
+                                fr, path, bb = mg; jumped = True; break
                         if p1 is not None and p0 is not None:
                             yield from self.run_block(self.clone(fr), tt, p1, steps)
                             path = p0; bb = ft; jumped = True; break
@@ -834,6 +875,75 @@ class Engine:
                 raise NotImplementedError('stmt ' + st)
             if not jumped:
                 raise NotImplementedError('fell off block ' + bb + ' in ' + fr.fn.name)
+
+    def try_merge(self, fr, bb, cond, tt, ft, p1, p0, path):
+        """run both branches of an if-diamond up to the immediate post-dominator and merge the two frames with ite"""
+        j = fn_ipdom(fr.fn).get(bb)
+        if j is None: return None
+        saved = self.cuts
+        self.cuts = set(saved) | {(fr.fn.name, j)}
+        try:
+            outs = []
+            for tgt, p in ((tt, p1), (ft, p0)):
+                if tgt == j:
+                    outs.append([(p, Cut(j, self.clone(fr)))]); continue
+                f2 = self.clone(fr)
+                outs.append(list(self.run_block(f2, tgt, p, 0, entry=True)))
+        except NotImplementedError:
+            raise
+        finally:
+            self.cuts = saved
+        for o in outs:
+            if len(o) != 1 or not isinstance(o[0][1], Cut) or o[0][1].bb != j: return None
+        (q1, c1), (q0, c0) = outs[0][0], outs[1][0]
+        n = len(path.pc)
+        extra = [T.implies(cond, x) for x in q1.pc[n + 1:]] + [T.implies(T.not_(cond), x) for x in q0.pc[n + 1:]]
+        tr = list(path.trace)
+        for q, g in ((q1, cond), (q0, T.not_(cond))):
+            for ev in q.trace[len(path.trace):]:
+                if ev[1] not in ('nowrap', 'nopanic'): return None
+                tr.append((ev[0], ev[1], ev[2], T.implies(g, ev[3])))
+        f1, f0 = c1.frame, c0.frame
+        out = Frame(fr.fn)
+        for k in set(f1.loc) | set(f0.loc):
+            a, b = f1.loc.get(k), f0.loc.get(k)
+            if a is None or b is None: continue      # dead temporaries of one branch
+            m = self.merge_val(cond, a, b, f1, f0, out)
+            if m is None: return None
+            out.loc[k] = m
+        return out, Path(path.pc + extra, tr), j
+
+    def merge_val(self, c, a, b, fa, fb, fout):
+        if a is b: return a
+        if isinstance(a, I) and isinstance(b, I) and a.ty == b.ty: return I(T.ite(c, a.t, b.t), a.ty)
+        if isinstance(a, B) and isinstance(b, B):
+            if a.t == b.t: return a
+            return B(T.or_(T.and_(c, a.t), T.and_(T.not_(c), b.t)))
+        if isinstance(a, U256) and isinstance(b, U256): return U256(T.ite(c, a.t, b.t))
+        if isinstance(a, Ref) and isinstance(b, Ref) and a.place == b.place:
+            if a.frame is fa and b.frame is fb: return Ref(fout, a.place)
+            if a.frame is b.frame: return a
+            return None
+        if isinstance(a, E) and isinstance(b, E) and a.var == b.var and len(a.fields) == len(b.fields):
+            fs = [self.merge_val(c, x, y, fa, fb, fout) for x, y in zip(a.fields, b.fields)]
+            return None if any(f is None for f in fs) else E(a.var, fs)
+        if isinstance(a, S) and isinstance(b, S):
+            if isinstance(a.fields, dict) and isinstance(b.fields, dict) and list(a.fields) == list(b.fields):
+                d = {k: self.merge_val(c, a.fields[k], b.fields[k], fa, fb, fout) for k in a.fields}
+                return None if any(v is None for v in d.values()) else S(d)
+            if isinstance(a.fields, list) and isinstance(b.fields, list) and len(a.fields) == len(b.fields):
+                l = [self.merge_val(c, x, y, fa, fb, fout) for x, y in zip(a.fields, b.fields)]
+                return None if any(v is None for v in l) else S(l)
+            return None
+        if isinstance(a, Arr) and isinstance(b, Arr) and len(a.items) == len(b.items):
+            l = [self.merge_val(c, x, y, fa, fb, fout) for x, y in zip(a.items, b.items)]
+            return None if any(v is None for v in l) else Arr(l)
+        if isinstance(a, Opaque) and isinstance(b, Opaque) and a.tag == b.tag: return a
+        if isinstance(a, Unit) and isinstance(b, Unit): return a
+        if isinstance(a, Boxed) and isinstance(b, Boxed):
+            v = self.merge_val(c, a.val, b.val, fa, fb, fout)
+            return None if v is None else Boxed(v)
+        return None
 
     @staticmethod
     def split_call(st):
@@ -934,6 +1044,20 @@ def default_models():
     def _(e, c, a, p):
         x, = a
         yield p, I(T.ite(T.cmp('<', x.t, C(0)), T.sub(C(0), x.t), x.t), 'u' + x.ty[1:])
+
+    @reg(r'<impl i\d+>::abs$')
+    def _(e, c, a, p):
+        x, = a
+        t = x.t
+        if t[0] == '-' and T.is_c(t[1]) and t[1][1] == 0 and T.rng(t[2])[0] is not None and T.rng(t[2])[0] >= 0:
+            yield p, I(t[2], x.ty); return       # |0 - m| = m for m >= 0
+        yield p, I(T.ite(T.cmp('<', x.t, C(0)), T.sub(C(0), x.t), x.t), x.ty)
+
+    @reg(r'U256Muldiv::shift_right$')
+    def _(e, c, a, p):
+        x = e.deref(a[0]); n = a[1]
+        if not T.is_c(n.t): raise NotImplementedError('symbolic U256 shift')
+        yield p, U256(T.div(x.t, P2(n.t[1])))
 
     @reg(r'::ok_or::')
     def _(e, c, a, p):
@@ -1131,9 +1255,16 @@ class Obligation:
 
     def smt2(self, negate=True, get_model=True):
         ls = ['(set-logic ALL)', T.decls()]
-        for h in self.hints: ls.append(f'(assert {T.smt(h)})')
-        for c in self.pc: ls.append(f'(assert {T.smt(c)})')
-        if negate: ls.append(f'(assert (not {T.smt(self.goal)}))')
+        terms = list(self.hints) + list(self.pc) + [self.goal]
+        if getattr(self, 'abstract_div', False):
+            terms, qd, qc = T.abstract_div(terms)
+            ls += [f'(declare-const {n} Int)' for n in qd]
+            goal_t = terms[-1]
+            terms = qc + terms[:-1] + [goal_t]
+        defs, printed = T.smt_dag(terms)
+        ls += defs
+        for x in printed[:-1]: ls.append(f'(assert {x})')
+        if negate: ls.append(f'(assert (not {printed[-1]}))')
         ls.append('(check-sat)')
         if get_model: ls.append('(get-model)')
         return '\n'.join(ls) + '\n'
